@@ -65,6 +65,13 @@ func (d *devWorld) start(ch *kernel.Chooser) string {
 		ExpiresIn               int    `json:"expires_in"`
 		Interval                int    `json:"interval"`
 	}
+	if r.Ex != nil {
+		for _, j := range w.Store.JournalFor(r.Ex.ID) {
+			if j.Method == "StoreDeviceAuthorization" && strings.Contains(j.Err, "user code already exists") {
+				d.o.Probe("user-code-collisions")
+			}
+		}
+	}
 	if r.Status != 200 || jsonUnmarshal(r.Body, &da) != nil || da.DeviceCode == "" {
 		return desc
 	}
@@ -120,11 +127,6 @@ func (d *devWorld) start(ch *kernel.Chooser) string {
 	// the user code shown to the user is the one the flow was stored under (the user approves by that code)
 	if dev := w.Store.Devices[da.DeviceCode]; dev != nil && dev.UserCode != da.UserCode {
 		d.viol("user-code", "device_authorization-not-stored", "%s: the response shows user code %q, the flow was stored under %q", desc, da.UserCode, dev.UserCode)
-	}
-	for _, j := range w.Store.JournalFor(r.Ex.ID) {
-		if j.Method == "StoreDeviceAuthorization" && j.Err != "" {
-			d.o.Probe("user-code-collisions")
-		}
 	}
 	// the flow belongs to the client that authenticated, whatever else the request body says
 	if dev := w.Store.Devices[da.DeviceCode]; dev != nil && dev.State.ClientID != p.claimedClient() {
